@@ -313,12 +313,16 @@ func (f *forge) propose(key *chainkit.ValKey, round uint64, index uint32, salt b
 		ValRoot: c.main.root, GasRewards: big.NewInt(0), Subsidy: big.NewInt(0), GasLimit: 8_000_000,
 		CurrVersion: c.yp.Version, MixDigest: types.UConMixHash, Consensus: cons, Extra: []byte{salt},
 	}
-	sig, err := crypto.Sign(h.Hash().Bytes(), key.Priv)
+	// NewBlock fills TxHash/ReceiptHash/Bloom, which are inside the header hash: sign the
+	// header as it is after assembly (engine.Seal signs block.Header() and uses WithSeal).
+	blk := types.NewBlock(h, nil, nil)
+	sealed := blk.Header()
+	sig, err := crypto.Sign(sealed.Hash().Bytes(), key.Priv)
 	if err != nil {
 		panic(err)
 	}
-	h.Signature = sig
-	blk := types.NewBlock(h, nil, nil)
+	sealed.Signature = sig
+	blk = blk.WithSeal(sealed)
 	p := &proposal{block: blk, proposer: key, round: round, index: index, prio: cd.Priority}
 	pm := ucon.ConsensusCommon{Round: bigRound, RoundIndex: index, Step: ucon.UConStepProposal, Priority: cd.Priority,
 		SortitionProof: proof, SubUsers: j, BlockHash: blk.Hash(), ParentHash: blk.ParentHash(), Timestamp: now}
@@ -336,32 +340,43 @@ func (f *forge) propose(key *chainkit.ValKey, round uint64, index uint32, salt b
 }
 
 // sealNetwork seals a proposed block the way the rest of the network would have (every
-// eligible validator's precommit, aggregated): the block another node committed first.
+// eligible validator's precommit — and certificate vote in a certificate round — aggregated):
+// the block another node committed first.
 func (f *forge) sealNetwork(p *proposal, index uint32, voters []*chainkit.ValKey) *types.Block {
-	uv := &ucon.UconValidators{RoundIndex: index, SCAggrSig: []byte{}, MCAggrSig: []byte{}, CCAggrSig: []byte{}}
-	var sigs []bls.Signature
 	hh := p.block.Hash()
-	for _, k := range voters {
-		cr := f.cred(k, p.round, index, ucon.Precommit)
-		if cr.weight == 0 || !f.chain.lookBackFor(p.round, ucon.Precommit).set.eligible(k) {
-			continue
+	section := func(kind ucon.VoteType) ([]ucon.SingleVote, []byte) {
+		var votes []ucon.SingleVote
+		var sigs []bls.Signature
+		set := f.chain.lookBackFor(p.round, kind).set
+		for _, k := range voters {
+			cr := f.cred(k, p.round, index, kind)
+			if cr.weight == 0 || !set.eligible(k) {
+				continue
+			}
+			votes = append(votes, ucon.SingleVote{VoterIdx: cr.idx, Votes: cr.weight, Proof: cr.proof})
+			sigs = append(sigs, k.BlsSk.Sign(chainkit.VotePayload(hh, p.round, index)))
 		}
-		uv.ChamberCommitters = append(uv.ChamberCommitters, ucon.SingleVote{VoterIdx: cr.idx, Votes: cr.weight, Proof: cr.proof})
-		sigs = append(sigs, k.BlsSk.Sign(chainkit.VotePayload(hh, p.round, index)))
-	}
-	if len(sigs) > 0 {
+		if len(sigs) == 0 {
+			return votes, []byte{}
+		}
 		agg, err := chainkit.BlsMgr.Aggregate(sigs)
 		if err != nil {
 			panic(err)
 		}
-		uv.SCAggrSig = agg.Compress().Bytes()
+		return votes, agg.Compress().Bytes()
+	}
+	uv := &ucon.UconValidators{RoundIndex: index, MCAggrSig: []byte{}, CCAggrSig: []byte{}}
+	uv.ChamberCommitters, uv.SCAggrSig = section(ucon.Precommit)
+	uc := &ucon.UconValidators{RoundIndex: index}
+	if isCertRound(p.round) {
+		uc.ChamberCerts, uc.CCAggrSig = section(ucon.Certificate)
 	}
 	h := p.block.Header()
 	var err error
 	if h.Validator, err = uv.ValidatorsToByte(); err != nil {
 		panic(err)
 	}
-	if h.Certificate, err = (&ucon.UconValidators{RoundIndex: index}).ValidatorsToByte(); err != nil {
+	if h.Certificate, err = uc.ValidatorsToByte(); err != nil {
 		panic(err)
 	}
 	return p.block.WithSeal(h)
